@@ -639,8 +639,51 @@ def rule_clause(repo, tier):
     return res
 
 
+@guarded
+def rule_state(repo, tier):
+    """state_dict() / load_state_dict() carry the controller over a checkpoint.  "Once false it stays false until reset" survives the round trip only if the
+    saved dictionary contains every attribute of the state machine (steps, patience_count, _continual, ...): the filter drops exactly the attached optimizer,
+    by an exact key comparison.  A substring test (`'continual' not in key`) also drops `_continual`, so a stopped controller is re-armed by loading its own state."""
+    res = RuleResult('C20.STATE', '_Scheduler.state_dict saves every attribute of the controller state machine: its filter excludes keys by exact comparison only, and '
+                     'never one of steps / max_steps / patience / patience_count / decreasing / _continual', floor=1)
+    f = repo.find_method(repo.cls(SCHED, '_Scheduler'), 'state_dict')
+    rets = [n for n in ast.walk(f.node) if isinstance(n, ast.Return) and n.value is not None]
+    if len(rets) != 1:
+        raise AnalysisError('C20.STATE: _Scheduler.state_dict has %d returns' % len(rets))
+    v = rets[0].value
+    if isinstance(v, ast.Name):                       # `_ret = {...}; return _ret`
+        ds = [n.value for n in ast.walk(f.node) if isinstance(n, ast.Assign) and any(isinstance(t, ast.Name) and t.id == v.id for t in n.targets)]
+        if len(ds) == 1:
+            v = ds[0]
+    STATE = {'steps', 'max_steps', 'patience', 'patience_count', 'decreasing', '_continual'}
+    problems = []
+    if isinstance(v, ast.DictComp):
+        keyvar = v.key.id if isinstance(v.key, ast.Name) else None
+        for g in v.generators:
+            for cond in g.ifs:
+                for c in ast.walk(cond):
+                    if not isinstance(c, ast.Compare):
+                        continue
+                    for op, rhs, lhs in zip(c.ops, c.comparators, [c.left] + c.comparators[:-1]):
+                        if isinstance(op, (ast.In, ast.NotIn)) and isinstance(rhs, ast.Name) and rhs.id == keyvar:
+                            problems.append('`%s` is a SUBSTRING test on the key: it also matches `_continual` / any attribute whose name contains the text' % src(c))
+                        elif isinstance(op, (ast.NotEq, ast.Eq)) and isinstance(rhs, ast.Constant) and rhs.value in STATE:
+                            problems.append('`%s` filters the state attribute %r' % (src(c), rhs.value))
+                        elif isinstance(op, ast.NotIn) and isinstance(rhs, (ast.Tuple, ast.List, ast.Set)):
+                            hit = [x.value for x in rhs.elts if isinstance(x, ast.Constant) and x.value in STATE]
+                            if hit:
+                                problems.append('`%s` filters the state attribute(s) %s' % (src(c), hit))
+    elif not (isinstance(v, ast.Call) or isinstance(v, ast.Dict)):
+        raise AnalysisError('C20.STATE: the value returned by state_dict is not understood')
+    res.inst({'function': f.fq, 'returns': src(v)[:80], 'problems': problems}, f.fq)
+    for pmsg in problems:
+        res.add(Finding('C20.STATE', f, 'state_dict: %s: a controller restored from its own state forgets that it had stopped (or how far it had counted)' % pmsg, node=rets[0],
+                        construct='state filter|' + pmsg[:60]))
+    return res
+
+
 def _rules_core(repo, tier):
-    return [rule_latch(repo, tier), rule_reset(repo, tier), rule_budget(repo, tier), rule_pat(repo, tier), rule_drv(repo, tier),
+    return [rule_state(repo, tier), rule_latch(repo, tier), rule_reset(repo, tier), rule_budget(repo, tier), rule_pat(repo, tier), rule_drv(repo, tier),
             rule_clause(repo, tier)]
 
 
